@@ -55,17 +55,19 @@ func (g *gate) setOpen(b bool) {
 // ---- one DB under test ----
 
 type lsmRun struct {
-	dir     string
-	engine  string
-	db      *NoKV.DB
-	ops     []string // Gallina xop terms
-	desc    []string
-	seq     uint64
-	touched map[string]map[uint64]bool // base key -> versions written
-	keys    []string                   // order of first touch
-	nontriv bool
-	c       *corr.Ctx
-	now     uint64
+	dir               string
+	engine            string
+	db                *NoKV.DB
+	ops               []string // Gallina xop terms
+	desc              []string
+	seq               uint64
+	touched           map[string]map[uint64]bool // base key -> versions written
+	keys              []string                   // order of first touch
+	nontriv           bool
+	next              map[string]uint64
+	commitAfterReopen bool
+	c                 *corr.Ctx
+	now               uint64
 }
 
 func openOpts(dir, engine string) *NoKV.Options {
@@ -374,7 +376,66 @@ func (r *lsmRun) closeDB() int {
 	return n
 }
 
+// snapshotReads reads every touched key at every interesting version.
+func (r *lsmRun) snapshotReads() map[string]string {
+	out := map[string]string{}
+	for _, s := range r.keys {
+		cf, user := splitBase([]byte(s))
+		vers := map[uint64]bool{math.MaxUint64: true}
+		for v := range r.touched[s] {
+			vers[v] = true
+		}
+		for v := range vers {
+			e, err := r.db.GetVersionedEntry(cf, user, v)
+			obs := "None"
+			if err == nil && e != nil {
+				obs = fmt.Sprintf("(Some (%s, %d))", corr.Hex(e.Value), e.Meta)
+			}
+			out[fmt.Sprintf("%s %d", corr.Hex([]byte(s)), v)] = obs
+		}
+	}
+	return out
+}
+
+// commitOne commits a one-key transaction and reports the commit version it got.
+func (r *lsmRun) commitOne() {
+	user := corr.Pick(r.c.Rng, lsmUserKeys)
+	r.seq++
+	val := []byte(fmt.Sprintf("t%d", r.seq))
+	txn := r.db.NewTransaction(true)
+	if err := txn.Set(user, val); err != nil {
+		panic(err)
+	}
+	if err := txn.Commit(); err != nil {
+		panic(err)
+	}
+	bk := baseKey(kv.CFDefault, user)
+	var ver uint64
+	found := false
+	for _, e := range r.layout().Active.Entries {
+		if bytes.Equal(e.Value, val) {
+			ver = kv.ParseTs(e.Key)
+			found = true
+		}
+	}
+	if !found {
+		panic("committed entry not found in the active memtable")
+	}
+	r.emit(fmt.Sprintf("XCommit (Rc %s %d %s 0 0 %d)", corr.Hex(bk), ver, corr.Hex(val), r.seq),
+		fmt.Sprintf("txn commit key=%q val=%q -> version %d", user, val, ver))
+	s := string(bk)
+	if r.touched[s] == nil {
+		r.touched[s] = map[uint64]bool{}
+		r.keys = append(r.keys, s)
+	}
+	r.touched[s][ver] = true
+	if r.next[s] < ver {
+		r.next[s] = ver
+	}
+}
+
 func (r *lsmRun) reopen() {
+	before := r.snapshotReads()
 	n := r.closeDB()
 	for i := 0; i < n; i++ {
 		r.emit("XFlush", "flush (during close)")
@@ -383,15 +444,25 @@ func (r *lsmRun) reopen() {
 	l := r.layout()
 	r.emit(fmt.Sprintf("XReopen %d %d", l.Active.SegmentID, l.MaxFID), "reopen")
 	r.emitLayout(l)
+	after := r.snapshotReads()
+	for _, k := range corr.SortedKeys(before) {
+		r.emit(fmt.Sprintf("SM %s %s %s", k, before[k], after[k]), fmt.Sprintf("same-after-reopen %s: %s / %s", k, before[k], after[k]))
+	}
+	r.c.Count("reopen")
+	if r.commitAfterReopen {
+		r.commitOne()
+		r.c.Count("commit_after_reopen")
+	}
 }
 
 type lsmProfile struct {
-	plain     bool
-	monotone  bool // versions of successive writes to one key strictly increase
-	engine    string
-	steps     int
-	withL0L0  bool
-	withReopn bool
+	plain       bool
+	monotone    bool // versions of successive writes to one key strictly increase
+	engine      string
+	steps       int
+	withL0L0    bool
+	withReopn   bool
+	reopenHeavy bool
 }
 
 var lsmUserKeys = [][]byte{[]byte("a"), []byte("a\x00"), []byte("ab"), []byte("b"), []byte("k"), []byte("z\xff")}
@@ -399,7 +470,7 @@ var lsmVersions = []uint64{1, 2, 3, 5, 7, 9}
 
 func (r *lsmRun) program(p lsmProfile) {
 	rng := r.c.Rng
-	next := map[string]uint64{}
+	next := r.next
 	val := 0
 	doPut := func() {
 		cf := kv.CFDefault
@@ -460,6 +531,10 @@ func (r *lsmRun) program(p lsmProfile) {
 			r.reopen()
 			did = true
 		}
+		if p.reopenHeavy && !did && rng.Intn(8) == 0 {
+			r.reopen()
+			did = true
+		}
 		if did {
 			maint++
 			r.readAll(p.plain)
@@ -472,14 +547,14 @@ func (r *lsmRun) program(p lsmProfile) {
 // scripted regression programs, run before the random ones
 var lsmScripts = map[string][]string{
 	// equal-version copies in two L0 tables (F1, repaired): the newer flush must win
-	"l0_tie":      {"put a 1", "rotate", "flush", "put a 2", "rotate", "flush", "read", "put a del", "rotate", "flush", "read", "reopen", "read"},
+	"l0_tie": {"put a 1", "rotate", "flush", "put a 2", "rotate", "flush", "read", "put a del", "rotate", "flush", "read", "reopen", "read"},
 	// the same through a move into one ingest buffer
 	"ingest_tie":  {"put k 1", "rotate", "flush", "put a 2", "put k 3", "rotate", "flush", "move", "read", "drain", "read"},
 	"ingest_tie2": {"put a 1", "put k 2", "rotate", "flush", "put k 3", "rotate", "flush", "move", "read", "drain", "read", "reopen", "read"},
 	// versions written out of order across sources (F4)
-	"order":       {"putv a 7 1", "rotate", "flush", "putv a 5 2", "read", "rotate", "flush", "read", "move", "read"},
+	"order": {"putv a 7 1", "rotate", "flush", "putv a 5 2", "read", "rotate", "flush", "read", "move", "read"},
 	// monotone versions through every kind of maintenance
-	"mono":        {"putv a 1 1", "putv b 1 2", "rotate", "flush", "putv a 2 3", "rotate", "flush", "move", "read", "putv a 3 4", "rotate", "flush", "move", "read", "drain", "read", "putv a 4 5", "rotate", "read", "reopen", "read", "flush", "read"},
+	"mono": {"putv a 1 1", "putv b 1 2", "rotate", "flush", "putv a 2 3", "rotate", "flush", "move", "read", "putv a 3 4", "rotate", "flush", "move", "read", "drain", "read", "putv a 4 5", "rotate", "read", "reopen", "read", "flush", "read"},
 }
 
 func (r *lsmRun) script(steps []string, plain bool) {
@@ -512,6 +587,8 @@ func (r *lsmRun) script(steps []string, plain bool) {
 		case "reopen":
 			r.reopen()
 			maint++
+		case "commit":
+			r.commitOne()
 		case "read":
 			r.readAll(plain)
 		}
@@ -526,7 +603,7 @@ func runScriptLsm(c *corr.Ctx, name string, plain bool) {
 		panic(err)
 	}
 	defer os.RemoveAll(dir)
-	r := &lsmRun{dir: dir, engine: "skiplist", touched: map[string]map[uint64]bool{}, c: c, now: uint64(time.Now().Unix())}
+	r := &lsmRun{dir: dir, engine: "skiplist", touched: map[string]map[uint64]bool{}, next: map[string]uint64{}, c: c, now: uint64(time.Now().Unix())}
 	flushGate.setOpen(false)
 	r.open()
 	first := r.layout().Active.SegmentID
@@ -543,7 +620,7 @@ func runOneLsm(c *corr.Ctx, p lsmProfile, idx int) {
 		panic(err)
 	}
 	defer os.RemoveAll(dir)
-	r := &lsmRun{dir: dir, engine: p.engine, touched: map[string]map[uint64]bool{}, c: c, now: uint64(time.Now().Unix())}
+	r := &lsmRun{dir: dir, engine: p.engine, touched: map[string]map[uint64]bool{}, next: map[string]uint64{}, c: c, now: uint64(time.Now().Unix()), commitAfterReopen: p.reopenHeavy}
 	flushGate.setOpen(false)
 	r.open()
 	l := r.layout()
@@ -560,10 +637,16 @@ func runLsm(c *corr.Ctx) error {
 	plain := c.Prop == "C01"
 	c.Meta("rule", "random programs of writes (6 user keys incl. byte-prefix pairs, 2 column families, deletes, empty values), memtable rotation, gated flushes, every compaction kind (L0->ingest move to a chosen base level, L0->L0, ingest drain, ingest keep, regular), close+reopen, on a real DB with background compaction paused; after every maintenance step every touched key is read at every written version, version-1 and the maximum. non-trivial = at least one maintenance step executed; distinct by Gallina term")
 	n := c.Scale(14, 1000)
-	var _ = bytes.Equal
+	if c.Prop == "C12" {
+		n = c.Scale(8, 600)
+	}
 	if plain {
 		for _, name := range []string{"l0_tie", "ingest_tie", "ingest_tie2"} {
 			runScriptLsm(c, name, true)
+		}
+	} else if c.Prop == "C12" {
+		for _, name := range []string{"ingest_reopen", "mono"} {
+			runScriptLsm(c, name, false)
 		}
 	} else {
 		for _, name := range []string{"order", "mono", "l0_tie"} {
@@ -575,6 +658,9 @@ func runLsm(c *corr.Ctx) error {
 		// the ART engine is property C07's subject; C01/C02/C12 use the default engine
 		if !plain {
 			p.monotone = c.Rng.Intn(2) == 0
+		}
+		if c.Prop == "C12" {
+			p.monotone, p.withReopn, p.reopenHeavy, p.withL0L0 = true, true, true, false
 		}
 		if p.monotone {
 			c.Count("profile_monotone")
